@@ -836,6 +836,131 @@ pub fn p5_listeners(t: Transport, minors: Vec<u32>, variant: u8) -> Spec {
     }
 }
 
+/// P5b: listener life cycle on a prepared bus (object 1 with services 1 and 2, object 2 bare):
+/// current-only scopes must deliver exactly the matching entities and then finish; a stopped and
+/// restarted listener starts afresh; filters removed before the start do not match; a listener
+/// for new events sees what happens after its start, and nothing after its stop.
+pub fn p5_lifecycle(t: Transport, minors: Vec<u32>, variant: u8) -> Spec {
+    let m2 = minors.clone();
+    Spec {
+        name: "p5b-listener-lifecycle".into(),
+        params: serde_json::json!({"transport": format!("{t:?}"), "versions": minors, "variant": variant}),
+        f1_shape: false,
+        make: Box::new(move || {
+            let (prepared_tx, prepared_rx) = oneshot::channel::<()>();
+            let (go_tx, go_rx) = oneshot::channel::<()>();
+            let (made_tx, made_rx) = oneshot::channel::<()>();
+            let (done_tx, done_rx) = oneshot::channel::<()>();
+            let producer = app("producer", move |hs, _| {
+                Box::pin(async move {
+                    let h = hs[1].clone();
+                    drop(hs);
+                    let o1 = es(h.create_object(ou(1)).await, "create object 1")?;
+                    let s11 = es(o1.create_service(su(1), ServiceInfo::new(1)).await, "create service 1")?;
+                    let s12 = es(o1.create_service(su(2), ServiceInfo::new(1)).await, "create service 2")?;
+                    let o2 = es(h.create_object(ou(2)).await, "create object 2")?;
+                    let _ = prepared_tx.send(());
+                    let _ = go_rx.await;
+                    // after the listener's second start: a new service on object 2, then object 3
+                    let s21 = es(o2.create_service(su(1), ServiceInfo::new(1)).await, "create service on 2")?;
+                    let o3 = es(h.create_object(ou(3)).await, "create object 3")?;
+                    es(h.sync_broker().await, "sync")?;
+                    let _ = made_tx.send(());
+                    let _ = done_rx.await;
+                    drop((s11, s12, s21, o1, o2, o3));
+                    es(h.sync_broker().await, "sync")?;
+                    Ok(())
+                })
+            });
+            let listener = app("listener", move |hs, _| {
+                Box::pin(async move {
+                    let h = hs[0].clone();
+                    drop(hs);
+                    let _ = prepared_rx.await;
+                    let mut l = es(h.create_bus_listener().await, "create listener")?;
+                    // filters: object 1, any service 2 — and one that is taken back before the start
+                    es(l.add_filter(BusListenerFilter::object(ou(1))), "add filter")?;
+                    es(l.add_filter(BusListenerFilter::any_object_specific_service(su(2))), "add filter")?;
+                    es(l.add_filter(BusListenerFilter::object(ou(2))), "add filter")?;
+                    es(l.remove_filter(BusListenerFilter::object(ou(2))), "remove filter")?;
+                    // 1. current only: object 1 and its service 2, then finished
+                    es(l.start(BusListenerScope::Current).await, "start current")?;
+                    let mut cur = Vec::new();
+                    while let Some(ev) = l.next_event().await {
+                        cur.push(ev);
+                        if cur.len() > 8 {
+                            return Err(format!("current-only listener does not finish: {cur:?}"));
+                        }
+                    }
+                    let objs = cur.iter().filter(|e| matches!(e, BusEvent::ObjectCreated(id) if id.uuid == ou(1))).count();
+                    let svcs = cur.iter().filter(|e| matches!(e, BusEvent::ServiceCreated(id) if id.uuid == su(2) && id.object_id.uuid == ou(1))).count();
+                    if objs != 1 || svcs != 1 || cur.len() != 2 {
+                        return Err(format!("current-only listener with filters {{object 1, service 2}} reported {cur:?}"));
+                    }
+                    if !l.is_finished() {
+                        return Err("current-only listener is not finished after its last event".into());
+                    }
+                    // 2. a second current-only start reports the same again (a fresh enumeration)
+                    if variant & 1 == 1 {
+                        es(l.stop().await, "stop")?;
+                        es(l.start(BusListenerScope::Current).await, "restart current")?;
+                        let mut n = 0;
+                        while let Some(_ev) = l.next_event().await {
+                            n += 1;
+                            if n > 8 {
+                                return Err("restarted current-only listener does not finish".into());
+                            }
+                        }
+                        if n != 2 {
+                            return Err(format!("restarted current-only listener reported {n} events instead of 2"));
+                        }
+                    }
+                    // 3. new events only, with a wider filter set
+                    es(l.stop().await, "stop")?;
+                    es(l.clear_filters(), "clear filters")?;
+                    es(l.add_filter(BusListenerFilter::any_object_specific_service(su(1))), "add filter")?;
+                    es(l.add_filter(BusListenerFilter::object(ou(3))), "add filter")?;
+                    let scope = if variant & 2 == 2 { BusListenerScope::All } else { BusListenerScope::New };
+                    es(l.start(scope).await, "start new")?;
+                    let _ = go_tx.send(());
+                    let _ = made_rx.await;
+                    let want_current = if variant & 2 == 2 { 1 } else { 0 }; // service 1 of object 1 exists already
+                    let mut seen = Vec::new();
+                    for _ in 0..(2 + want_current) {
+                        match l.next_event().await {
+                            Some(ev) => seen.push(ev),
+                            None => return Err(format!("listener for new events ended early after {seen:?}")),
+                        }
+                    }
+                    let new_svc = seen.iter().filter(|e| matches!(e, BusEvent::ServiceCreated(id) if id.uuid == su(1) && id.object_id.uuid == ou(2))).count();
+                    let new_obj = seen.iter().filter(|e| matches!(e, BusEvent::ObjectCreated(id) if id.uuid == ou(3))).count();
+                    let old_svc = seen.iter().filter(|e| matches!(e, BusEvent::ServiceCreated(id) if id.uuid == su(1) && id.object_id.uuid == ou(1))).count();
+                    if new_svc != 1 || new_obj != 1 || old_svc != want_current {
+                        return Err(format!("listener ({scope:?}) with filters {{service 1, object 3}} reported {seen:?}"));
+                    }
+                    // 4. after stop nothing more arrives and the listener reports the end of its stream
+                    es(l.stop().await, "stop")?;
+                    let _ = done_tx.send(());
+                    es(h.sync_broker().await, "sync")?;
+                    let mut late = Vec::new();
+                    while let Some(ev) = l.next_event().await {
+                        late.push(ev);
+                        if late.len() > 8 {
+                            break;
+                        }
+                    }
+                    if !late.is_empty() {
+                        return Err(format!("events after stop: {late:?}"));
+                    }
+                    es(l.destroy().await, "destroy")?;
+                    Ok(())
+                })
+            });
+            (cfgs(2, t, &m2), vec![listener, producer])
+        }),
+    }
+}
+
 // ------------------------------------------------------------------------------------------------
 // P7: explicit shutdowns in every order
 
